@@ -146,6 +146,13 @@ def pick(alpha: int, beta: int) -> int:
 	return inner(1)
 
 COUNT: str = 'c'
+MIXED = [1, None]
+OTHER = [1.5, None]
+
+def mixed(n: int) -> int:
+	xs = [n, None]
+	ys = ['s', n]
+	return len(xs) + len(ys)
 '''
 MAIN_V = {
     'v0': 'from c04pool.m1 import make1\n\ndef run(n: int) -> int:\n\tx = make1(n)\n\treturn x.get()\n',
@@ -213,7 +220,10 @@ def baselines():
     out = {}
     for m in MODS:
         s = Session({'__main__': MAIN_V['v0']}, cache=False, template_override=True)
-        out[m] = s.transpile(m)
+        try:
+            out[m] = s.transpile(m)
+        except Exception as e:  # noqa  -- judged in run(): every pool module is written to transpile
+            out[m] = f'<raises {type(e).__name__}: {str(e)[:200]}>'
     out['foreign:cvars'] = Session({'__main__': MAIN_V['v0']}, cache=False, transpiler_env=FOREIGN_ENV).transpile('c04pool.m0')
     for v, src in MAIN_V.items():
         s = Session({'__main__': src}, cache=False, template_override=True)
@@ -406,6 +416,9 @@ def run(ctx):
     n_orders = target_orders(ctx)
     by_seed = seed_baselines()
     base = by_seed['0']
+    for k in MODS:
+        if base[k].startswith('<raises'):
+            ctx.violation(['fresh-transpile-fails', k.split('.')[1], base[k].split(':')[0][8:]], f'{k} does not transpile in a fresh process: {base[k]}', {'module': k})
     for seed, b in by_seed.items():
         for k in base:
             if b[k] != base[k]:
@@ -417,7 +430,11 @@ def run(ctx):
     tasks += [(list(op), depth - 1, base, PRELOADED) for op in ops]
     warm = new_session()
     for m in MODS:
-        warm.load(m)
+        try:
+            warm.load(m)
+        except Exception as e:  # noqa  -- a pool module that cannot even be loaded (with the cache on) is a finding, not a harness error
+            ctx.violation(['fresh-load-fails', m.split('.')[1], type(e).__name__], f'{m} cannot be loaded in a fresh session with the cache enabled: {type(e).__name__}: {str(e)[:200]}', {'module': m})
+            return {'states': 1, 'transitions': 0, 'traces_validated_against_impl': 0, 'samples': [], 'max_depth': 0, 'bound': 'aborted: a pool module does not load', 'exhaustive': False}
     res = pool.pmap(worker, tasks, workers=ctx.workers, rotate=ctx.seed)
     transitions = 0
     samples = []
